@@ -13,8 +13,15 @@ MANIFEST = {
 ASSUME = BASE_ASSUME + ["spec/sm83.py is the oracle (documentation-derived)", "bus abstracted as a trace: Mapper.Read returns an unconstrained byte per access"]
 
 
+HELPERS = ["add", "adc", "sub", "sbc", "and", "xor", "or", "cp", "inc", "dec", "rlc", "rrc", "rl", "rr", "sla", "sra", "swap", "srl", "rlca", "rrca", "rla",
+           "rra", "daa", "cpl", "scf", "ccf", "addHL", "addSP", "ldHLSP", "zf", "nf", "hf", "cf", "setZf", "setNf", "setHf", "setCf"]
+
+
 def tasks(ctx):
-    return filter_tasks([cc.opcode_task("C01", ch, i) for i, ch in enumerate(cc.opcode_chunks(32))])
+    from engine.driver import LemmaTask
+    ts = [cc.opcode_task("C01", ch, i) for i, ch in enumerate(cc.opcode_chunks(32))]
+    ts.append(LemmaTask("lemma:helpers", cc.helper_lemmas, ["(*cpu.CPU)." + h for h in HELPERS] + ["cpu.hc8", "cpu.c8", "cpu.hc16", "cpu.c16", "cpu.hc8Sub", "cpu.c8Sub"]))
+    return filter_tasks(ts)
 
 
 def run(tier, seed):
